@@ -1,6 +1,8 @@
 """C15 — I/O failures are never silent: success implies complete, correct output."""
 import glob
+import json
 import os
+import re
 import shutil
 import signal
 import subprocess
@@ -21,7 +23,12 @@ MANIFEST = {
             "buffer size (a prefix of it if it throws) and never overflows its buffer.  PARTIAL: that every call site "
             "of lmplz/build_binary/filter/interpolate uses these primitives and lets the exception end the process "
             "is not a theorem; it is enumerated on the real tools by single-fault injection (LD_PRELOAD shim) — "
-            "supporting evidence, bounded by the inputs and fault positions listed in the evidence file.",
+            "supporting evidence, bounded by the inputs and fault positions listed in the evidence file.  The call sites themselves "
+            "are inventoried: every call to the raw I/O entry points in lm/ and util/ and every catch handler that does not "
+            "rethrow is regenerated from the current tree with clang-query AST matchers (file, enclosing function, how the "
+            "result is consumed) and compared with a reviewed, classified inventory (checks/C15_callsites.json: primitive / "
+            "checked / destructor-abort / fallback / …); a new or changed site breaks the correspondence and triggers fault "
+            "runs focused on exactly the calls issued from that site.",
     "note": "Model fidelity: the real util/file.cc and util/file_stream.hh run in-process (ASan+UBSan) against a scripted "
             "OS and must print the same result, bytes and request log as the Lean driver.  Property oracle on the real "
             "tools: injected hard fault => exit status != 0 or signal and the binary not marked complete; exit 0 => "
@@ -41,7 +48,7 @@ REQUIRED = ["KV.C15.write_all_or_throw", "KV.C15.read_exact_or_throw", "KV.C15.r
 KNOWN_SYNC = "sync-fault-at-or-after-header-write"
 KNOWN_HANG = "lmplz-hangs-on-tempfile-setup-failure"
 MAGIC_COMPLETE = b"mmap lm http://kheafield.com/code format version 5\n\0"
-ERRNOS = {"ENOSPC": 28, "EIO": 5, "ENOMEM": 12}
+ERRNOS = {"ENOSPC": 28, "EIO": 5, "ENOMEM": 12, "SHORT": -1}
 
 
 # ------------------------------------------------------------------ tie 1: scripted OS vs model
@@ -208,6 +215,114 @@ def retry_stream(ctx, hexe, dexe, n_lines, kbytes):
     return found
 
 
+
+# ------------------------------------------------------------------ call-site inventory (static) and site attribution (runtime)
+INVENTORY = os.path.join(VERIF, "checks", "C15_callsites.json")
+
+
+def current_inventory():
+    """Regenerated from the current tree with clang-query (tools/c15_callsites.py); cached by tree hash."""
+    import importlib.util
+    spec = importlib.util.spec_from_file_location("c15_callsites", os.path.join(VERIF, "tools", "c15_callsites.py"))
+    mod = importlib.util.module_from_spec(spec)
+    spec.loader.exec_module(mod)
+    cache = os.path.join(os.environ.get("VERIF_SCRATCH", "/var/tmp/kpu-kenlm-verif"), "callsites")
+    os.makedirs(cache, exist_ok=True)
+    cf = os.path.join(cache, "%s_%s.json" % (repo.tree_hash(), sha(open(os.path.join(VERIF, "tools", "c15_callsites.py"), "rb").read())))
+    if os.path.exists(cf):
+        return json.load(open(cf))
+    inv = mod.inventory(REPO, jobs=max(4, min(12, NPROC - 2)))
+    tmp = cf + ".tmp%d" % os.getpid()
+    json.dump(inv, open(tmp, "w"))
+    os.replace(tmp, cf)
+    return inv
+
+
+def compare_inventory(ctx, inv):
+    """Returns the list of flagged items (new / changed call sites and non-rethrowing catch handlers)."""
+    ref = json.load(open(INVENTORY))
+    flagged = []
+    rs = {x["key"]: x for x in ref["sites"]}
+    rc = {x["key"]: x for x in ref["catches"]}
+    for s in inv["sites"]:
+        r = rs.get(s["key"])
+        if r is None:
+            flagged.append(dict(s, kind="site", why="new call site (not in the reviewed inventory)"))
+        elif (r["callee"], r["consumed"]) != (s["callee"], s["consumed"]):
+            flagged.append(dict(s, kind="site", why="result consumption changed: reviewed %s/%s (%s), now %s/%s" % (
+                r["callee"], r["consumed"], r.get("class"), s["callee"], s["consumed"])))
+    for c in inv["catches"]:
+        r = rc.get(c["key"])
+        if r is None:
+            flagged.append(dict(c, kind="catch", why="new catch handler that does not rethrow (%s, %s)" % (c["caught"], c["handler"])))
+        elif r["handler"] != c["handler"]:
+            flagged.append(dict(c, kind="catch", why="catch handler changed: reviewed %s, now %s" % (r["handler"], c["handler"])))
+    cur = {x["key"] for x in inv["sites"]} | {x["key"] for x in inv["catches"]}
+    removed = sorted(k for k in list(rs) + list(rc) if k not in cur)
+    ctx.cov["callsite_inventory"] = {"sites": len(inv["sites"]), "catch_handlers": len(inv["catches"]), "units": inv.get("units"),
+                                     "reviewed_sites": len(rs), "reviewed_catch_handlers": len(rc), "removed": removed,
+                                     "flagged": [f["key"] + ": " + f["why"] for f in flagged],
+                                     "by_class": {}}
+    for x in ref["sites"] + ref["catches"]:
+        bc = ctx.cov["callsite_inventory"]["by_class"]
+        bc[x.get("class", "?")] = bc.get(x.get("class", "?"), 0) + 1
+    if inv.get("errors"):
+        flagged.append({"kind": "inventory", "key": "inventory", "file": "-", "line": 0, "function": "-",
+                        "why": "clang-query could not analyse part of the tree: %s" % inv["errors"][:2]})
+    return flagged
+
+
+def simple_name(demangled):
+    d = demangled.replace("(anonymous namespace)::", "")
+    d = d.split("(")[0] if not d.startswith("operator") else d
+    while "<" in d and ">" in d:
+        n = re.sub(r"<[^<>]*>", "", d)
+        if n == d:
+            break
+        d = n
+    return d.split("::")[-1].strip()
+
+
+def resolve_sites(binary, offsets):
+    """{offset(hex str): [(function, file, line), …innermost first]} via addr2line on the return address - 1."""
+    offs = sorted(set(offsets))
+    if not offs:
+        return {}
+    addrs = ["0x%x" % (int(o, 16) - 1) for o in offs]
+    rc, o, e = sh(["addr2line", "-a", "-f", "-C", "-i", "-e", binary] + addrs, timeout=120)
+    out, cur = {}, None
+    lines = o.splitlines()
+    i = 0
+    while i < len(lines):
+        if lines[i].startswith("0x"):
+            cur = "%x" % (int(lines[i], 16) + 1)
+            out[cur] = []
+            i += 1
+            continue
+        if cur is not None and i + 1 < len(lines):
+            fn, loc = lines[i], lines[i + 1]
+            m = re.match(r"(.*?):(\d+)", loc)
+            f = m.group(1) if m else loc
+            mm = re.search(r"/((?:lm|util)/.*)$", f)
+            out[cur].append((simple_name(fn), mm.group(1) if mm else os.path.basename(f), int(m.group(2)) if m else 0))
+            i += 2
+        else:
+            i += 1
+    return out
+
+
+def site_key(inv_sites, cls, frames):
+    """Name a runtime site by the static inventory key when it can be matched (file, function, callee; nearest line)."""
+    if not frames:
+        return "external::%s" % cls
+    fn, f, line = frames[0]
+    callee = {"open": ("open", "fopen"), "fseek": ("fseek", "fseeko")}.get(cls, (cls,))
+    cands = [s for s in inv_sites if s["file"] == f and s["function"] == fn and s["callee"] in callee]
+    if cands:
+        best = min(cands, key=lambda s: (abs(s["line"] - line), s["line"]))
+        return best["key"]
+    return "%s::%s::%s@%d" % (f, fn, cls, line)
+
 # ------------------------------------------------------------------ tie 2: fault enumeration on the real tools
 def build_shim():
     src = os.path.join(VERIF, "tools", "shim_io.c")
@@ -371,8 +486,10 @@ def marked_complete(data):
     return data is not None and data.startswith(MAGIC_COMPLETE)
 
 
-def fault_stream(ctx, bdir, shim):
+def fault_stream(ctx, bdir, shim, inv, flagged):
     found = False
+    site_cov = {}
+    flagged_hit = {f["key"]: 0 for f in flagged if f["kind"] == "site"}
     base = fresh_scratch("c15_%d_%d" % (ctx.seed, os.getpid()))
     try:
         prepare_inputs(ctx, bdir, base, shim)
@@ -381,7 +498,7 @@ def fault_stream(ctx, bdir, shim):
         totals = {"injected": 0, "fired": 0, "not_fired": 0, "transient_runs": 0, "transient_events": 0,
                   "nonzero_exit": 0, "known_sync": 0}
         for tool in tools:
-            rc0, out0, lg0, err0 = run_tool(tool, os.path.join(base, "w_base_" + tool.name), shim, {})
+            rc0, out0, lg0, err0 = run_tool(tool, os.path.join(base, "w_base_" + tool.name), shim, {"SHIM_SITES": "1"})
             if rc0 != 0 or any(v is None for v in out0.values()):
                 ctx.violation("fault-free run of %s failed (rc=%s): %s" % (tool.name, rc0, err0[-500:]),
                               {"stream": "faults", "tool": tool.name, "argv": tool.argv}, no_input=True)
@@ -400,7 +517,27 @@ def fault_stream(ctx, bdir, shim):
                 if p and p[0] == "COUNT":
                     counts[p[1]] = counts.get(p[1], 0) + int(p[2])
             ctx.cov.setdefault("fault_free_call_counts", {})[tool.name] = {k: v for k, v in counts.items() if v}
+            # calling sites of the fault-free run, resolved to source (addr2line on the return addresses)
+            rt_sites = [(p[1], p[3], int(p[4])) for p in (l.split() for l in lg0) if p and p[0] == "SITE" and p[2] == "exe"]
+            resolved = resolve_sites(tool.argv[0], [o for _, o, _ in rt_sites])
+            key_of = {(cls, off): site_key(inv["sites"], cls, resolved.get(off, [])) for cls, off, _ in rt_sites}
             jobs = []
+            # focused enumeration: every call issued from a flagged call site (new / changed in the inventory)
+            for cls, off, cnt in rt_sites:
+                k_ = key_of[(cls, off)]
+                if k_ in flagged_hit:
+                    for k in sorted(set(list(range(1, min(cnt, 12) + 1)) + [cnt])):
+                        for en in (["ENOSPC", "EIO"] + (["SHORT"] if cls in ("write", "pwrite", "read", "pread") else [])):
+                            jobs.append(("hard", cls, k, en, off))
+                            flagged_hit[k_] += 1
+            # short transfer at an exact call: every pwrite/pread, first/last/sampled write and read
+            for cls in ("pwrite", "pread", "write", "read"):
+                n = counts.get(cls, 0)
+                if n:
+                    ks = range(1, n + 1) if (cls.startswith("p") and n <= 40) else sorted({1, 2, n - 1, n} | {ctx.rng.randrange(1, n + 1) for _ in range(4)})
+                    for k in ks:
+                        if 1 <= k <= n:
+                            jobs.append(("hard", cls, k, "SHORT"))
             for cls in HARD_CLASSES:
                 n = counts.get(cls, 0)
                 if n == 0:
@@ -421,7 +558,7 @@ def fault_stream(ctx, bdir, shim):
             def one(job, tool=tool):
                 wd = os.path.join(base, "w_%s_%s" % (tool.name, sha(repr(job))))
                 if job[0] == "hard":
-                    env = {"SHIM_FAULT": "%s:%d:%d" % (job[1], job[2], ERRNOS[job[3]])}
+                    env = {"SHIM_FAULT": "%s:%d:%d" % (job[1], job[2], ERRNOS[job[3]]) + (":%s" % job[4] if len(job) > 4 else "")}
                 else:
                     env = {"SHIM_TRANSIENT": "%d:%d:%d" % (job[1], job[2], job[3])}
                 r = run_tool(tool, wd, shim, env)
@@ -435,7 +572,27 @@ def fault_stream(ctx, bdir, shim):
                           "shim": "tools/shim_io.c", "rc": rc, "stderr_tail": err[-600:]}
                 same = outs == out0
                 if job[0] == "hard":
-                    fired = any(l.startswith("FIRED") for l in lg)
+                    fl = [l.split() for l in lg if l.startswith("FIRED")]
+                    fired = bool(fl)
+                    if fired and len(fl[0]) >= 6:
+                        sk = key_of.get((fl[0][1], fl[0][5])) if fl[0][4] == "exe" else "external(%s)::%s" % (fl[0][4], fl[0][1])
+                        if sk is None:
+                            sk = site_key(inv["sites"], fl[0][1], resolve_sites(tool.argv[0], [fl[0][5]]).get(fl[0][5], []))
+                        c = site_cov.setdefault(sk, {"injected": 0, "short": 0, "nonzero_exit": 0, "tools": set()})
+                        c["short" if job[3] == "SHORT" else "injected"] += 1
+                        c["nonzero_exit"] += 1 if (rc != 0 and rc != "timeout") else 0
+                        c["tools"].add(tool.name)
+                    if job[3] == "SHORT":
+                        # a short transfer is a transient condition: the result must not change
+                        totals["short_faults"] = totals.get("short_faults", 0) + 1
+                        ctx.count(("short", tool.name, job), nontrivial=fired)
+                        ctx.hist("faults.class", "short-" + job[1])
+                        if rc != 0 or not same:
+                            ctx.violation("%s: %s #%d transferred only half of the requested bytes and the result changed "
+                                          "(rc=%s, outputs %s)" % (tool.name, job[1], job[2], rc, "identical" if same else "DIFFER"),
+                                          with_inputs(replay, base))
+                            found = True
+                        continue
                     totals["injected"] += 1
                     totals["fired" if fired else "not_fired"] += 1
                     ctx.count(("fault", tool.name, job), nontrivial=fired)
@@ -488,6 +645,10 @@ def fault_stream(ctx, bdir, shim):
                         found = True
             log("  [C15] %-28s %4d runs" % (tool.name, len(jobs)))
         ctx.cov["faults"] = totals
+        ctx.cov["fault_sites"] = {k: dict(v, tools=sorted(v["tools"])) for k, v in sorted(site_cov.items())}
+        never = [x["key"] for x in inv["sites"] if x["key"] not in site_cov]
+        ctx.cov["fault_sites_never_reached"] = never
+        ctx.cov["flagged_site_focus_runs"] = flagged_hit
         log("  [C15] faults: %s" % totals)
         if totals["fired"] == 0:
             ctx.violation("no injected fault fired: the shim does not reach the tools", {"stream": "faults"}, no_input=True)
@@ -512,19 +673,42 @@ def run(ctx):
         dexe = lean.driver_path("drv_C15")
         if os.path.exists(dexe):
             found |= retry_stream(ctx, hexe, dexe, 1500 if ctx.tier == "quick" else 30000, consts)
+    # regenerated call-site inventory vs the reviewed one: a new or changed site breaks the correspondence
+    inv = {"sites": [], "catches": [], "errors": []}
+    flagged = []
+    try:
+        inv = current_inventory()
+        flagged = compare_inventory(ctx, inv)
+    except Exception as ex:     # clang-query missing, parse failure, …
+        flagged = [{"kind": "inventory", "key": "inventory", "file": "-", "line": 0, "function": "-",
+                    "why": "call-site inventory could not be regenerated: %r" % (ex,)}]
+    for f in flagged:
+        log("  [C15] inventory: %s %s:%s %s — %s" % (f["key"], f.get("file"), f.get("line"), f.get("function"), f["why"]))
     ok, bdir, lg = repo.build("tools")
     if not ok:
         problems.append(lg)
     else:
         shim = build_shim()
-        found |= fault_stream(ctx, bdir, shim)
+        before = len(ctx.violations)
+        found |= fault_stream(ctx, bdir, shim, inv, flagged)
+        if flagged and len(ctx.violations) == before:
+            # the correspondence (reviewed inventory) is broken and the fault enumeration, including the runs focused
+            # on the flagged sites, found no failing input
+            ctx.violation("call-site inventory differs from the reviewed one and no failing input was found: " +
+                          "; ".join("%s (%s:%s in %s): %s" % (f["key"], f.get("file"), f.get("line"), f.get("function"), f["why"])
+                                    for f in flagged)[:1500],
+                          {"stream": "inventory", "flagged": flagged, "focus_runs": ctx.cov.get("flagged_site_focus_runs")},
+                          no_input=True)
     ctx.cov["rule"] = ("retry: one scripted-OS operation line per case (the six loops and FileStream op sequences over buffer "
                        "sizes 0..8192), non-trivial when the script has >= 2 answers, distinct by line; faults: one injected "
                        "run per (tool, call class, k, errno) or (tool, transient seed), non-trivial when the fault fired / "
                        "at least one EINTR or short transfer was injected")
     ctx.assumptions += [
         "the OS is modelled as an arbitrary answer sequence ok n | EINTR | errno | 0; short transfers deliver a prefix",
-        "call-site coverage (every tool lets the primitive's exception end the process) is enumerated, not proved",
+        "call-site coverage (every tool lets the primitive's exception end the process) is enumerated, not proved; the "
+        "inventory of call sites is exact for lm/ and util/ as parsed by clang (C++ iostream use, e.g. std::ifstream in "
+        "filter_main.cc, and third-party code are outside it); per-site injected-fault counts are in coverage.fault_sites, "
+        "sites never reached by the inputs in coverage.fault_sites_never_reached",
         "faults inside glibc stdio are injected at the fwrite/fread/fflush/fclose/fseek/rewind entry points",
         "mmap store failures (SIGBUS on a full disk) and failing close() are not injected",
         "x86-64 Linux, glibc; tools dynamically linked against libc so that LD_PRELOAD interposition applies",
